@@ -7,6 +7,8 @@ import (
 	"fmt"
 	"go/constant"
 	"go/types"
+	"regexp"
+	"strconv"
 	"strings"
 
 	"golang.org/x/tools/go/ssa"
@@ -31,6 +33,47 @@ var modelled = map[string]string{
 	"url.Parse": "T-url", "url.(*URL).String": "T-url",
 }
 
+var mkSliceRe = regexp.MustCompile(`^\(mkSlice (\|[^|]+\||\S+) (\d+) (\d+)\)$`)
+
+// observers of an error chain (errors.Is / errors.As results): forwarded through wrappers, absent from leaves
+var chainBools = []string{"isNotExist", "isExist", "isPerm", "isDeadline", "isNotDir"}
+var chainPtrs = []string{"asHTTP", "asDavErr", "asPathErr", "asLinkErr"}
+
+// obsForward: every chain observer of e (other than skip) equals that of inner
+func obsForward(e, inner string, skip ...string) string {
+	sk := map[string]bool{}
+	for _, s := range skip {
+		sk[s] = true
+	}
+	var cs []string
+	for _, ob := range append(append([]string{}, chainPtrs...), chainBools...) {
+		if !sk[ob] {
+			cs = append(cs, fmt.Sprintf("(= (%s %s) (%s %s))", ob, e, ob, inner))
+		}
+	}
+	return "(and " + strings.Join(cs, " ") + ")"
+}
+
+// obsNone: e is a leaf that matches no sentinel and no typed target (other than skip)
+func obsNone(e string, skip ...string) string {
+	sk := map[string]bool{}
+	for _, s := range skip {
+		sk[s] = true
+	}
+	var cs []string
+	for _, ob := range chainPtrs {
+		if !sk[ob] {
+			cs = append(cs, fmt.Sprintf("(= (%s %s) 0)", ob, e))
+		}
+	}
+	for _, ob := range chainBools {
+		if !sk[ob] {
+			cs = append(cs, fmt.Sprintf("(not (%s %s))", ob, e))
+		}
+	}
+	return "(and " + strings.Join(cs, " ") + ")"
+}
+
 func isModelled(key string) bool { _, ok := modelled[key]; return ok }
 
 func (x *Exec) use(id string) { x.C.used[id] = true }
@@ -43,11 +86,9 @@ func (x *Exec) newError(st *State, text string, wrapped string, hp string) Val {
 		st.assume(fmt.Sprintf("(= (errText %s) %s)", e, text))
 	}
 	if wrapped != "" {
-		for _, ob := range []string{"asHTTP", "asDavErr", "asPathErr", "isNotExist", "isExist", "isPerm", "isDeadline"} {
-			st.assume(fmt.Sprintf("(= (%s %s) (%s %s))", ob, e, ob, wrapped))
-		}
+		st.assume(obsForward(e, wrapped))
 	} else {
-		st.assume(fmt.Sprintf("(and (= (asHTTP %s) 0) (= (asDavErr %s) 0) (= (asPathErr %s) 0) (not (isNotExist %s)) (not (isExist %s)) (not (isPerm %s)) (not (isDeadline %s)))", e, e, e, e, e, e, e))
+		st.assume(obsNone(e))
 	}
 	st.assume(fmt.Sprintf("(and (not (osIsExist %s)) (not (osIsNotExist %s)))", e, e))
 	if hp == "" {
@@ -340,7 +381,7 @@ func (x *Exec) modelCall(st *State, fr *Frame, key string, cc *ssa.CallCommon, a
 		okT := fmt.Sprintf("(frelOk %s %s)", args[0].Term, args[1].Term)
 		e := x.newSym(st, "relerr", "Iface")
 		st.assume(fmt.Sprintf("(= (= %s nilI) %s)", e, okT))
-		st.assume(fmt.Sprintf("(=> (not (= %s nilI)) (and (= (asHTTP %s) 0) (= (asDavErr %s) 0) (= (asPathErr %s) 0) (not (hostPath %s)) (not (isNotExist %s)) (not (isExist %s)) (not (isPerm %s)) (not (isDeadline %s))))", e, e, e, e, e, e, e, e, e))
+		st.assume(fmt.Sprintf("(=> (not (= %s nilI)) (and %s (not (hostPath %s))))", e, obsNone(e), e))
 		return Val{T: rt, Tup: []Val{{T: tString, Term: ite(okT, fmt.Sprintf("(frel %s %s)", args[0].Term, args[1].Term), `""`)}, {T: tError, Term: e}}}, true
 	case "http.StatusText":
 		x.C.decl("(declare-fun statusText (Int) String)")
@@ -361,8 +402,36 @@ func (x *Exec) modelCall(st *State, fr *Frame, key string, cc *ssa.CallCommon, a
 		x.declFmt()
 		text, hp, wrapped, ok := x.sprintf(st, fr, cc)
 		if !ok {
+			// format or arguments not statically known (e.g. inside HTTPErrorf): the text can only mention the
+			// host path if the format or one of the arguments does
 			x.use(id)
-			return x.newError(st, "", "", x.newSym(st, "hp", "Bool")), true
+			hpSym := x.newSym(st, "hp", "Bool")
+			E := x.heap(st, x.C.elemHeapName(types.NewInterfaceType(nil, nil)), x.C.elemHeapSort(types.NewInterfaceType(nil, nil)))
+			fmtHP := fmt.Sprintf("(strHostPath %s)", args[0].Term)
+			if strings.HasPrefix(args[0].Term, "\"") {
+				fmtHP = "false" // a string constant of the program
+			}
+			elemsHP := fmt.Sprintf("(exists ((i Int)) (and (<= 0 i) (< i (s_len %s)) (hostPath (select (select %s (s_base %s)) i))))", args[1].Term, E, args[1].Term)
+			if m := mkSliceRe.FindStringSubmatch(args[1].Term); m != nil {
+				// a variadic argument list of statically known length: expand
+				n, _ := strconv.Atoi(m[2])
+				var ds []string
+				for i := 0; i < n && n <= 8; i++ {
+					ds = append(ds, fmt.Sprintf("(hostPath (select (select %s %s) %d))", E, m[1], i))
+				}
+				if n <= 8 {
+					elemsHP = or(ds...)
+				}
+			} else if args[1].Term == "nilS" {
+				elemsHP = "false"
+			}
+			st.assume(fmt.Sprintf("(=> %s (or %s %s))", hpSym, fmtHP, elemsHP))
+			e := x.newSym(st, "err", "Iface")
+			st.assume(fmt.Sprintf("(and (not (= %s nilI)) (> (i_tag %s) 0) (= (hostPath %s) %s) (= (asHTTP %s) 0) (not (osIsExist %s)) (not (osIsNotExist %s)))", e, e, e, hpSym, e, e, e))
+			if strings.HasPrefix(args[0].Term, "\"") && !strings.Contains(args[0].Term, "%w") {
+				st.assume(obsNone(e)) // a constant format without %w wraps nothing
+			}
+			return Val{T: tError, Term: e}, true
 		}
 		x.use(id)
 		return x.newError(st, text, wrapped, hp), true
@@ -383,6 +452,8 @@ func (x *Exec) modelCall(st *State, fr *Frame, key string, cc *ssa.CallCommon, a
 			ob = "isPerm"
 		case strings.Contains(tgt, "ErrDeadlineExceeded"):
 			ob = "isDeadline"
+		case isErrnoConst(cc.Args[1], 20):
+			ob = "isNotDir" // syscall.ENOTDIR
 		}
 		if ob == "" {
 			return Val{}, false
@@ -399,7 +470,7 @@ func (x *Exec) modelCall(st *State, fr *Frame, key string, cc *ssa.CallCommon, a
 		ok := fmt.Sprintf("(unquoteOk %s)", s)
 		e := x.newSym(st, "uqerr", "Iface")
 		st.assume(fmt.Sprintf("(= (= %s nilI) %s)", e, ok))
-		st.assume(fmt.Sprintf("(=> (not (= %s nilI)) (and (= (asHTTP %s) 0) (= (asDavErr %s) 0) (not (hostPath %s)) (not (isNotExist %s)) (not (isExist %s))))", e, e, e, e, e, e))
+		st.assume(fmt.Sprintf("(=> (not (= %s nilI)) (and %s (not (hostPath %s)) (not (osIsExist %s)) (not (osIsNotExist %s))))", e, obsNone(e), e, e, e))
 		return Val{T: rt, Tup: []Val{{T: tString, Term: ite(ok, fmt.Sprintf("(unquoteVal %s)", s), `""`)}, {T: tError, Term: e}}}, true
 	case "strconv.Itoa", "strconv.FormatInt":
 		x.use(id)
@@ -466,7 +537,10 @@ func (x *Exec) declAtoi() {
 
 func (x *Exec) declFmt() {
 	x.C.decl("(declare-fun strHostPath (String) Bool)")
+	x.C.decl("(assert (not (strHostPath \"\")))")
 	x.C.decl("(declare-fun hexOf (Int) String)")
+	x.C.decl("(assert (forall ((n Int)) (! (>= (str.len (hexOf n)) 1) :pattern ((hexOf n)))))")
+	// string constants of the program do not mention the host path
 }
 
 func (x *Exec) declQuote() {
@@ -554,6 +628,8 @@ func (x *Exec) modelErrorsAs(st *State, fr *Frame, cc *ssa.CallCommon, args []Va
 		ob = "asDavErr"
 	case "io/fs.PathError":
 		ob = "asPathErr"
+	case "os.LinkError":
+		ob = "asLinkErr"
 	}
 	if ob == "" {
 		return Val{}, false
@@ -567,6 +643,23 @@ func (x *Exec) modelErrorsAs(st *State, fr *Frame, cc *ssa.CallCommon, args []Va
 	cur := x.loadLoc(st, l)
 	x.storeLoc(st, l, Val{T: pp.Elem(), Term: ite(fmt.Sprintf("(not (= %s 0))", r), r, cur.Term)})
 	return Val{T: tBool, Term: fmt.Sprintf("(not (= %s 0))", r)}, true
+}
+
+// isErrnoConst: v boxes the constant syscall.Errno(n)
+func isErrnoConst(v ssa.Value, n int64) bool {
+	mi, ok := v.(*ssa.MakeInterface)
+	if !ok {
+		return false
+	}
+	c, ok := mi.X.(*ssa.Const)
+	if !ok || c.Value == nil {
+		return false
+	}
+	named, ok := c.Type().(*types.Named)
+	if !ok || named.Obj().Pkg() == nil || named.Obj().Pkg().Path() != "syscall" || named.Obj().Name() != "Errno" {
+		return false
+	}
+	return c.Int64() == n
 }
 
 // modelInvoke: interface method calls with a fixed meaning
